@@ -129,6 +129,18 @@ Theorem ondisk_save_restartable : forall s lr ap k,
 Proof. exact ondisk_save_restartable_proved. Qed.
 Print Assumptions ondisk_save_restartable.
 
+(* the name codec: for EVERY uint64 snapshot index and EVERY uint64 replica /
+   sender id, the names written by getDirName / getTempDirName ("%016X", id in
+   decimal: up to 20 digits) fall within the repetition bounds of the expressions
+   processOrphans classifies directories with (bounds, width and verb regenerated
+   from internal/server/snapshotenv.go).  process_orphans' unconditional
+   treatment of DGen / DRecv / DFinal names rests on this. *)
+Theorem temp_names_recognised : forall idx id,
+  idx < 2 ^ 64 -> id < 2 ^ 64 ->
+  final_name_recognised idx = true /\ gen_name_recognised idx id = true /\ recv_name_recognised idx id = true.
+Proof. exact temp_names_recognised_proved. Qed.
+Print Assumptions temp_names_recognised.
+
 (* reachable states satisfy J *)
 Theorem reachable_states_J : forall ord cs s t tr,
   ord_ok ord -> J s -> do_cmds ord s cs = (t, tr) -> allowed_run s tr /\ t = run s tr /\ J t.
@@ -205,4 +217,10 @@ Example recvx_demo :
   (st_rec s, vnames (st_fs (run s [OCrash])),
    forallb (fun o => files_goodb 5 (d_files o) && ext_fullb (d_files o)) (st_fs (run s [OCrash])))
   = (5, [DFinal 5], true).
+Proof. vm_compute. reflexivity. Qed.
+
+(* the largest id has 20 decimal digits; a bound of 16 on the id part would reject it *)
+Example name_len_witness :
+  (printed_len 10 0 (2 ^ 64 - 1), printed_len 10 0 (10 ^ 16), printed_len 16 16 (2 ^ 64 - 1),
+   part_ok 1 16 10 0 (10 ^ 16)) = (20, 17, 16, false).
 Proof. vm_compute. reflexivity. Qed.
